@@ -326,6 +326,10 @@ def wf_oracle(st):
             if q not in preds.get(m, ()):
                 bad.append(("inputs_resolve", {"mux": m, "recorded_input_resolves_to": q,
                                                "feeding": sorted(preds.get(m, ()))}))
+        if len(preds.get(m, ())) > 1 and len(set(st["mux_parents"])) != len(st["mux_parents"]):
+            # "... resolve to exactly its feeding components": each of them once (Lean: `e.parents.Nodup`)
+            bad.append(("inputs_resolve", {"mux": m, "recorded_inputs": list(st["mux_parents"]), "why": "an input is recorded twice",
+                                           "feeding": sorted(preds.get(m, ()))}))
     # one entry per clause
     seen, out = set(), []
     for c, d in bad:
